@@ -438,7 +438,7 @@ type kafkaAddr interface {
 
 func applyVersions(cl *fakecluster.Cluster, b brokerSpec) {
 	for _, v := range b.Versions {
-		cl.SetVersions(b.ID, v.Api, v.Min, v.Max)
+		cl.SetBrokerVersions(b.ID, v.Api, v.Min, v.Max)
 	}
 }
 
@@ -680,7 +680,7 @@ func (w *world) keysOf(s step) []string {
 
 func isChange(op string) bool {
 	switch op {
-	case "move", "move_coord", "move_controller", "add_broker", "remove_broker", "move_port", "bootstrap_up":
+	case "move", "move_coord", "move_controller", "add_broker", "remove_broker", "move_port", "bootstrap_up", "outage":
 		return true
 	}
 	return false
@@ -697,6 +697,19 @@ func (w *world) change(s step) {
 	case "move_controller":
 		cl.SetController(s.To)
 		w.controller = s.To
+	case "outage":
+		// nothing is reachable for a while (longer than the metadata TTL: at least one periodic refresh fails while dialling)
+		ids := cl.BrokerIDs()
+		for _, id := range ids {
+			cl.Net.Refuse(cl.Broker(id).Addr(), syscall.ECONNREFUSED)
+		}
+		for _, cs := range cl.Net.Conns() {
+			cl.Net.AbortConn(cs.ID, true) // established connections die too: the transport has to dial, and cannot
+		}
+		time.Sleep(time.Duration(s.N) * time.Millisecond)
+		for _, id := range ids {
+			cl.Net.Refuse(cl.Broker(id).Addr(), nil)
+		}
 	case "bootstrap_up":
 		for _, id := range cl.BrokerIDs() {
 			cl.Net.Refuse(fmt.Sprintf("b%d.fake:9092", id), nil)
@@ -773,6 +786,11 @@ func execute(c routeCase) *result {
 	}
 	cl := fakecluster.New(nw, maxInitial)
 	defer cl.Close()
+	for _, b := range c.Brokers {
+		if b.ID == 0 {
+			cl.AddBroker(0, "") // node ids start at 0 in most real clusters
+		}
+	}
 	for _, b := range c.Brokers {
 		setRack(cl, b.ID, b.Rack)
 		applyVersions(cl, b)
@@ -1203,6 +1221,14 @@ func run(tb ev.TB, c routeCase) *outcome {
 		out.label("metadata_filter_checked")
 	}
 
+	outageBefore := func(i int) bool {
+		for k := 0; k < i && k < len(c.Steps); k++ {
+			if c.Steps[k].Op == "outage" {
+				return true
+			}
+		}
+		return false
+	}
 	// ---- routing
 	stepOf := func(seq int64) int {
 		for i := range res.obs {
@@ -1529,6 +1555,12 @@ func run(tb ev.TB, c routeCase) *outcome {
 						}
 					}
 				}
+			}
+			if !got && (o.Err != nil || s.Op == "listoffsets") && outageBefore(i) {
+				// (a split ListOffsets reports such a failure on the partition concerned and returns no error)
+				// connections pooled before a network outage fail on their next use: the call ended with a transport error
+				out.label("call_failed_on_connection_from_before_outage")
+				continue
 			}
 			if !got {
 				what := fmt.Sprintf("api %d", wnt.api)
